@@ -176,7 +176,7 @@ impl ErrorKind {
             ErrorKind::TimedOut => "timed out",
             ErrorKind::WriteZero => "write zero",
             ErrorKind::Interrupted => "operation interrupted",
-            ErrorKind::Other => "other os error",
+            ErrorKind::Other => "other error",
             ErrorKind::UnexpectedEof => "unexpected end of file",
             ErrorKind::OutOfMemory => "out of memory",
         }
